@@ -42,5 +42,8 @@ fn main() {
             Err(_) => writeln!(out, "-999").unwrap(),
         }
         out.flush().unwrap();
+        if seqapi::BLOCKED.load(std::sync::atomic::Ordering::SeqCst) {
+            std::process::exit(3); // a blocked call left a spinning thread behind: the caller restarts the harness for the remaining lines
+        }
     }
 }
